@@ -159,17 +159,24 @@ def c03(tier):
         rep.samples.append(sample_run)
     if not recs:
         raise Infra("no trace recorded")
-    # 3. validate
-    ok, at, states = validate_vis(work, "all", recs, nw, maxseq, maxptr)
-    rep.states += states
-    rep.transitions += states
-    if ok:
-        rep.traces += len(index)
-    else:
+    # 3. validate, forty runs per TLC invocation (one long trace of 400 runs did not finish in 15 minutes on a loaded machine)
+    CH = 40
+    for g in range(0, len(index), CH):
+        grp = index[g:g + CH]
+        lo = grp[0][0] - 1
+        hi = index[g + CH][0] - 1 if g + CH < len(index) else len(recs)
+        part = recs[lo:hi]
+        ok, at, states = validate_vis(work, "all%d" % (g // CH), part, nw, maxseq, maxptr)
+        rep.states += states
+        rep.transitions += states
+        if ok:
+            rep.traces += len(grp)
+            continue
+        at += lo        # position in the whole list
         # which run, which event
-        bad = [x for x in index if x[0] <= at]
-        first, n, path, c = bad[-1] if bad else index[0]
-        rep.traces += len([x for x in index if x[0] < first])
+        bad = [x for x in grp if x[0] <= at]
+        first, n, path, c = bad[-1] if bad else grp[0]
+        rep.traces += len([x for x in grp if x[0] < first])
         evd = recs[at - 1] if 0 < at <= len(recs) else {}
         os.makedirs(os.path.join(vlib.VERIF, "evidence", "replays"), exist_ok=True)
         keep = os.path.join(vlib.VERIF, "evidence", "replays", "C03-run%d-seed%d.ndjson" % (n, c["seed"]))
